@@ -32,6 +32,7 @@ type Output interface {
 	StartPoint(ctx context.Context, runIds []string) (StartPoint, error)
 	Send(ctx context.Context, reader ChannelReader) error
 	SetRunId(ctx context.Context, runId string) error
+	ResetRunId(ctx context.Context, runId string) error
 	Close()
 }
 
@@ -238,6 +239,18 @@ type cmdExecution struct {
 }
 
 func (ro *RedisOutput) SetRunId(ctx context.Context, id string) error {
+	return ro.switchRunId(ctx, id, ro.cfg.RunId)
+}
+
+// ResetRunId : the source answered FULLRESYNC, the history of id starts with a snapshot. The position
+// stored under the previous run id is not a position of that history (or lies in a part of it the
+// source cannot continue), so it is not moved to the new run id: if the snapshot is not replayed
+// completely, the next round must not find it there and continue the stream from it.
+func (ro *RedisOutput) ResetRunId(ctx context.Context, id string) error {
+	return ro.switchRunId(ctx, id, "")
+}
+
+func (ro *RedisOutput) switchRunId(ctx context.Context, id string, prevId string) error {
 	if ro.cfg.RunId == id {
 		return nil
 	}
@@ -248,7 +261,7 @@ func (ro *RedisOutput) SetRunId(ctx context.Context, id string) error {
 			return err
 		}
 		defer cli.Close()
-		err = checkpoint.UpdateCheckpoint(cli, ro.cfg.CheckpointName, []string{id, ro.cfg.RunId})
+		err = checkpoint.UpdateCheckpoint(cli, ro.cfg.CheckpointName, []string{id, prevId})
 		if err != nil {
 			// keep the previous run id: the retry (and the next call) must still know under which id
 			// the position is stored, otherwise it finds none and writes the 'none yet' marker
